@@ -18,6 +18,10 @@ import Rooc.Proofs.ExpLemmasDiv
 import Rooc.Proofs.ExpLemmasTruth
 import Rooc.Proofs.ExpLemmasReflect
 import Rooc.Proofs.ExpLemmasDefined
+import Rooc.Proofs.ExpLemmasStruct
+import Rooc.Proofs.ExpLemmasFull
+import Rooc.Proofs.ExpLemmasSpell
+import Rooc.Proofs.ExpLemmasCompile
 namespace Rooc.Props.C10
 open Rooc Rooc.Exp Rooc.Sem
 set_option linter.unusedSimpArgs false
@@ -193,6 +197,249 @@ example : ∃ (e : Exp (Ext K)) (ρ : String → K) (v : K),
   · simp [LogicOperands01, LogicOperands01List, Is01, eval]
   · simp [eval, evalList, truthy_eq]
   · simp [simplify, naryCore, naryStep, naryKeep, mayBeUndefined, mayBeUndefinedAny, naryFlatten, naryScan, numTruthy]
+
+/-! ## The full-strength statement (after the repairs 9f62afd / 5a25b35)
+
+`collapsesNonbinary B e` is the port of the harness predicate `collapses_nonbinary` that flags the one
+remaining known finding (`C10-nary-singleton-nonbinary`): some and/or node of `e` is rewritten by `simplify`
+into a lone operand that is neither a logic expression nor a literal nor a variable marked Boolean by `B`
+(`B := fun _ => false` is the domain-independent predicate).  It is decidable and assignment-independent.
+Outside that region — and it is the ONLY exclusion for value preservation — `simplify`, `flatten` and the
+linearizer's `normalize = simplify ∘ flatten ∘ simplify` preserve the denotation at every assignment. -/
+
+/-- FULL outside the collapse region: a defined expression keeps its value. -/
+theorem simplify_sound (B : String → Bool) (ρ : String → K) (hB : BoolVars B ρ) (e : Exp (Ext K)) (v : K)
+    (hc : collapsesNonbinary B e = false) (hv : eval ρ e = some v) : eval ρ (simplify e) = some v :=
+  simplify_sound_nc ρ hB e hc v hv
+
+/-- FULL outside the collapse region, literals finite: `simplify e` has exactly the denotation of `e`
+(defined iff defined, same value) at every assignment. -/
+theorem simplify_eval_eq (B : String → Bool) (ρ : String → K) (hB : BoolVars B ρ) (e : Exp (Ext K))
+    (hc : collapsesNonbinary B e = false) (hfin : finiteLits e = true) :
+    eval ρ (simplify e) = eval ρ e :=
+  simplify_eval_eq_nc ρ hB e hc hfin
+
+theorem simplify_defined_iff (B : String → Bool) (ρ : String → K) (hB : BoolVars B ρ) (e : Exp (Ext K))
+    (hc : collapsesNonbinary B e = false) (hfin : finiteLits e = true) :
+    (eval ρ (simplify e)).isSome = (eval ρ e).isSome := by
+  rw [simplify_eval_eq_nc ρ hB e hc hfin]
+
+/-- the domain-independent instance: no assumption on the assignment at all. -/
+theorem simplify_eval_eq_anywhere (ρ : String → K) (e : Exp (Ext K))
+    (hc : collapsesNonbinary (fun _ => false) e = false) (hfin : finiteLits e = true) :
+    eval ρ (simplify e) = eval ρ e :=
+  simplify_eval_eq_nc ρ (fun _ h => by cases h) e hc hfin
+
+/-- FULL: the linearizer's `normalize` (`exp.simplify().flatten().simplify()`, `Lin.normalizeExp`). -/
+theorem normalize_eval_eq (B : String → Bool) (ρ : String → K) (hB : BoolVars B ρ) (e e' : Exp (Ext K))
+    (hn : Lin.normalizeExp e = some e')
+    (hc : collapsesNonbinary B e = false) (hfin : finiteLits e = true) : eval ρ e' = eval ρ e :=
+  normalize_eval_eq_nc ρ hB e e' hn hc hfin
+
+theorem normalize_sound (B : String → Bool) (ρ : String → K) (hB : BoolVars B ρ) (e e' : Exp (Ext K)) (v : K)
+    (hn : Lin.normalizeExp e = some e') (hc : collapsesNonbinary B e = false)
+    (hv : eval ρ e = some v) : eval ρ e' = some v :=
+  normalize_sound_nc ρ hB e e' v hn hc hv
+
+/-- FULL: after the first two passes nothing can collapse: the second `simplify` of `normalize` is
+unconditionally sound. -/
+theorem normalize_second_pass_safe (B : String → Bool) (n : Nat) (e e2 : Exp (Ext K))
+    (h : flattenF n (simplify e) = some e2) : collapsesNonbinary B e2 = false :=
+  noCollapse_flatten_simplify n e e2 h
+
+/-- FULL: `normalize` does not run out of fuel when the fuel covers the polynomial size. -/
+theorem normalize_total (e : Exp (Ext K)) (h : fsize (simplify e) ≤ Lin.flattenFuel) :
+    (Lin.normalizeExp e).isSome := normalize_isSome e h
+
+/-- The region is not empty and the exclusion is necessary: inside it the value changes
+(`x and 1 ↦ x` at `x = 2`; this is the known finding, and `Oracle`'s kind `value-nonbinary-logic-operand`). -/
+theorem collapse_region_counterexample :
+    ∃ (e : Exp (Ext K)) (ρ : String → K), collapsesNonbinary (fun _ => false) e = true ∧
+      finiteLits e = true ∧ eval ρ e = some 1 ∧ eval ρ (simplify e) = some 2 := by
+  refine ⟨.and [.var "x", .num (.fin 1)], fun _ => 2, ?_, ?_, ?_, ?_⟩
+  · simp [collapsesNonbinary, collapsesAny, logicShaped, simplify, naryCore, naryStep, naryKeep,
+      mayBeUndefined, mayBeUndefinedAny, naryFlatten, naryScan, numTruthy]
+  · simp [finiteLits, finiteLitsL, isFin]
+  · simp [eval, evalList, truthy_eq]
+  · simp [simplify, naryCore, naryStep, naryKeep, mayBeUndefined, mayBeUndefinedAny, naryFlatten,
+      naryScan, numTruthy, eval]
+
+/-- … and it is exactly the Boolean marking that takes `x and 1` out of the region. -/
+example : collapsesNonbinary (fun x => x == "x") (.and [.var "x", .num (.fin 1)] : Exp (Ext K)) = false := by
+  simp [collapsesNonbinary, collapsesAny, logicShaped, simplify, naryCore, naryStep, naryKeep,
+    mayBeUndefined, mayBeUndefinedAny, naryFlatten, naryScan, numTruthy]
+
+/-- The finiteness hypothesis of `simplify_eval_eq` is needed for the converse direction only, and is the
+only other exclusion: `0 * (x + inf)` is outside the collapse region, undefined, and simplifies to `0`. -/
+theorem finiteLits_needed_counterexample :
+    ∃ e : Exp (Ext K), collapsesNonbinary (fun _ => false) e = false ∧ finiteLits e = false ∧
+      (∀ ρ : String → K, eval ρ e = none) ∧ (∀ ρ : String → K, eval ρ (simplify e) = some 0) := by
+  refine ⟨.bin .mul (.num (.fin 0)) (.bin .add (.var "x") (.num .pinf)), ?_, ?_, ?_, ?_⟩
+  · simp [collapsesNonbinary]
+  · simp [finiteLits, isFin]
+  · intro ρ; simp [eval]
+  · intro ρ; simp [simplify, mulCore, addCore, isNumEq, mayBeUndefined, Arith.eq, Ext.eq, eval]
+
+/-- non-vacuity: `not ((x and y) or z) + (x and y)` has and/or nodes with arbitrary operands in exact and
+logical positions, lies outside the region, and `LogicOperands01` fails for it at `x = 2`. -/
+example : collapsesNonbinary (fun _ => false)
+      (.bin .add (.not (.or [.and [.var "x", .var "y"], .var "z"])) (.and [.var "x", .var "y"])
+        : Exp (Ext K)) = false ∧
+    ¬ LogicOperands01 (fun _ => (2 : K))
+      (.bin .add (.not (.or [.and [.var "x", .var "y"], .var "z"])) (.and [.var "x", .var "y"])) := by
+  constructor
+  · simp [collapsesNonbinary, collapsesAny, logicShaped, simplify, addCore, notCore, naryCore, naryStep,
+      naryKeep, mayBeUndefined, mayBeUndefinedAny, naryFlatten, naryScan, numTruthy]
+  · simp [LogicOperands01, LogicOperands01List, Is01, eval]
+
+/-! ## constant spelling
+
+The second half of the property at the level of expressions: the passes that follow (`flatten`, the second
+`simplify`, bound inference since c360e70, the lowering) see a constant only through its simplification. -/
+
+/-- FULL: constant folding is complete — a closed expression (no variable) that has the value `k`
+simplifies to the literal `k`, whatever operators spell it (`1 + 1`, `4 / 2`, `0 - 2`, `abs{-2}`,
+`max{1, 2}`, `not 0`, `2 and 3` …). -/
+theorem constant_folding_complete (ρ : String → K) (c : Exp (Ext K)) (k : K)
+    (hc : isClosed c = true) (hk : eval ρ c = some k) : simplify c = .num (.fin k) :=
+  simplify_closed ρ c hc k hk
+
+/-- FULL: `simplify` is compositional — sub-expressions with the same simplification are interchangeable
+in every context (`subst h · t` plugs the hole `h` of `t`). Any number type. -/
+theorem simplify_context_congr {α : Type} [Arith α] (h : String) (a b t : Exp α)
+    (hab : simplify a = simplify b) : simplify (subst h a t) = simplify (subst h b t) :=
+  simplify_subst_congr h hab t
+
+/-- FULL: two spellings of the same constant give IDENTICAL simplified trees in every context … -/
+theorem respell_simplify (ρ : String → K) (h : String) (t c1 c2 : Exp (Ext K)) (k : K)
+    (h1 : isClosed c1 = true) (h2 : isClosed c2 = true)
+    (e1 : eval ρ c1 = some k) (e2 : eval ρ c2 = some k) :
+    simplify (subst h c1 t) = simplify (subst h c2 t) :=
+  simplify_subst_congr h (by rw [simplify_closed ρ c1 h1 k e1, simplify_closed ρ c2 h2 k e2]) t
+
+/-- … hence identical normalized trees: everything downstream of `normalize` (rows, bounds, acceptance or
+rejection) is literally the same for the two spellings. -/
+theorem respell_normalize (ρ : String → K) (h : String) (t c1 c2 : Exp (Ext K)) (k : K)
+    (h1 : isClosed c1 = true) (h2 : isClosed c2 = true)
+    (e1 : eval ρ c1 = some k) (e2 : eval ρ c2 = some k) :
+    Lin.normalizeExp (subst h c1 t) = Lin.normalizeExp (subst h c2 t) := by
+  unfold Lin.normalizeExp; rw [respell_simplify ρ h t c1 c2 k h1 h2 e1 e2]
+
+/-- non-vacuity: `(0 - 2) * x` and `-2 * x` (the spellings of the repaired finding
+`C10-spelling-dependent-rejection`). -/
+example (ρ : String → K) :
+    Lin.normalizeExp (.bin .mul (.bin .sub (.num (.fin 0)) (.num (.fin 2))) (.var "x") : Exp (Ext K)) =
+    Lin.normalizeExp (.bin .mul (.num (.fin (-2))) (.var "x")) := by
+  have := respell_normalize ρ "c" (.bin .mul (.var "c") (.var "x"))
+    (.bin .sub (.num (.fin 0)) (.num (.fin 2))) (.num (.fin (-2))) (-2)
+    (by simp [isClosed]) (by simp [isClosed]) (by simp [eval, binVal]) (by simp [eval])
+  simpa [subst] using this
+
+/-- spellings that differ by more than a constant (`x * -2` vs `-2 * x`) are not identical after
+`normalize`, only equal in value (`normalize_eval_eq`). -/
+example : simplify (.bin .mul (.var "x") (.num (.fin (-2))) : Exp (Ext K)) ≠
+    simplify (.bin .mul (.num (.fin (-2))) (.var "x")) := by
+  have h : (-2 : K) ≠ 1 := by norm_num
+  simp [simplify, mulCore, isNumEq, h]
+
+/-! ## constant spelling at the level of compilation (the glue `normalized_for_bounds`) -/
+
+/-- FULL: `normalized_for_bounds` normalises BOTH sides of EVERY constraint — there is no shortcut for sides
+that `Exp::is_leaf` calls a leaf (a bare `abs{}`/`min{}`/`max{}` block is one): it is the all-or-nothing map
+of `normConstraint`.  (Seeded change C10-4 added such a shortcut; the correspondence check diffs this model
+function against the real pipeline, and the harness compares block-sided twins.) -/
+theorem normalizedForBounds_spec {α : Type} [Arith α] (cs : List (Constraint α)) :
+    Compile.normalizedForBounds cs = Compile.mapOpt Compile.normConstraint cs :=
+  Compile.normalizedForBounds_spec cs
+
+/-- FULL: bound inference cannot tell constraints with equal normal forms apart: the whole bounds stage of
+`Compile.linearize` (normalisation, `analyze`, `enforceable`) is the same for twin models. -/
+theorem bounds_stage_respell {α : Type} [Arith α] (m m' : Model α) (tol : α) (maxSteps : Nat)
+    (hd : m'.domain = m.domain)
+    (hc : List.Forall₂ Compile.SameNorm m.constraints m'.constraints) :
+    Compile.normalizedForBounds m'.constraints = Compile.normalizedForBounds m.constraints ∧
+    (∀ cs, Compile.normalizedForBounds m.constraints = some cs →
+      Compile.enforceable (Analyzer.analyze m'.domain cs tol maxSteps) m'.domain =
+        Compile.enforceable (Analyzer.analyze m.domain cs tol maxSteps) m.domain) :=
+  Compile.bounds_stage_respell m m' tol maxSteps hd hc
+
+/-- The twin of seeded change C10-4: `max{ (1 + 1) * x, y } <= 10` and `max{ 2 * x, y } <= 10` — the side is a
+bare block — are handed to bound inference as the same constraint, namely the folded one. -/
+theorem block_side_twin_same_bounds_input (ρ : String → K) :
+    Compile.normalizedForBounds
+      [({ name := "", lhs := .max [.bin .mul (.bin .add (.num (.fin 1)) (.num (.fin 1))) (.var "x"), .var "y"],
+          cmp := .le, rhs := .num (.fin 10), isAssert := false } : Constraint (Ext K))] =
+    Compile.normalizedForBounds
+      [{ name := "", lhs := .max [.bin .mul (.num (.fin 2)) (.var "x"), .var "y"],
+         cmp := .le, rhs := .num (.fin 10), isAssert := false }] := by
+  apply Compile.normalizedForBounds_congr
+  refine List.Forall₂.cons ?_ List.Forall₂.nil
+  apply Compile.normConstraint_of_SameNorm
+  refine ⟨rfl, rfl, rfl, ?_, by simp⟩
+  have := respell_normalize ρ "c" (.max [.bin .mul (.var "c") (.var "x"), .var "y"])
+    (.num (.fin 2)) (.bin .add (.num (.fin 1)) (.num (.fin 1))) 2
+    (by simp [isClosed]) (by simp [isClosed]) (by simp [eval]) (by simp [eval, binVal]; norm_num)
+  simpa [subst, substL] using this
+
+/-- … and that constraint is the folded one (no leaf shortcut): the coefficient reaches the analyzer as the
+literal `1 + 1`. -/
+example : Compile.normalizedForBounds
+      [({ name := "", lhs := .max [.bin .mul (.bin .add (.num (.fin 1)) (.num (.fin 1))) (.var "x"), .var "y"],
+          cmp := .le, rhs := .num (.fin 10), isAssert := false } : Constraint (Ext K))] =
+    some [{ name := "", lhs := .max [.bin .mul (.num (.fin (1 + 1))) (.var "x"), .var "y"],
+            cmp := .le, rhs := .num (.fin 10), isAssert := false }] := by
+  have h2 : ((1 : K) + 1 = 0) = False := by simp; norm_num
+  have h3 : ((1 : K) + 1 = 1) = False := by simp
+  simp [Compile.normalizedForBounds_spec, Compile.mapOpt, Compile.normConstraint, Lin.normalizeExp,
+    Lin.flattenFuel, flattenF, flattenF.flattenMulRest, simplify, addCore, mulCore, isNumEq, allNums,
+    mayBeUndefined, h2, h3]
+
+/-! ## structural facts about the output (consumed by the linearizer) -/
+
+/-- FULL: `simplify` leaves no `BinOp`-spelled logic node and no `UnOp::Not` — for every input and every
+number type; so `Exp::linearize`'s `UnimplementedExpression` arms are dead after `normalize`. -/
+theorem simplify_no_bin_logic {α : Type} [Arith α] (e : Exp α) : noBinLogic (simplify e) = true :=
+  noBinLogic_simplify e
+
+theorem normalize_no_bin_logic {α : Type} [Arith α] (e e' : Exp α) (hn : Lin.normalizeExp e = some e') :
+    noBinLogic e' = true := by
+  unfold Lin.normalizeExp at hn
+  simp only [Option.map_eq_some_iff] at hn
+  obtain ⟨e2, _, rfl⟩ := hn
+  exact noBinLogic_simplify e2
+
+/-- FULL: in the output of `simplify` every and/or node is an n-ary node in normal form: at least two
+operands, no operand of the same kind (no nesting), no literal unless an operand may be undefined, fixed by
+the second loop; `flatten` keeps that. -/
+theorem simplify_andor_normal {α : Type} [Arith α] (e : Exp α) : AONF (simplify e) :=
+  AONF_of_NF _ (NF_simplify e)
+
+theorem flatten_andor_normal {α : Type} [Arith α] (n : Nat) (e e' : Exp α)
+    (h : flattenF n e = some e') (he : AONF e) : AONF e' := AONF_flatten n e e' h he
+
+theorem normalize_andor_normal {α : Type} [Arith α] (e e' : Exp α) (hn : Lin.normalizeExp e = some e') :
+    AONF e' ∧ NF e' := by
+  unfold Lin.normalizeExp at hn
+  simp only [Option.map_eq_some_iff] at hn
+  obtain ⟨e2, _, rfl⟩ := hn
+  exact ⟨AONF_of_NF _ (NF_simplify e2), NF_simplify e2⟩
+
+/-- FULL: every foldable constant is folded in the output of `simplify` (any input, any number type): no
+operator node whose operands are all literals — except a division by the literal zero, kept on purpose —,
+no literal-only min/max, and every n-ary and/or node has at least two operands, not all literals. -/
+theorem simplify_constants_folded {α : Type} [Arith α] (e : Exp α) : constFolded (simplify e) = true :=
+  constFolded_simplify e
+
+theorem normalize_constants_folded {α : Type} [Arith α] (e e' : Exp α)
+    (hn : Lin.normalizeExp e = some e') : constFolded e' = true := by
+  unfold Lin.normalizeExp at hn
+  simp only [Option.map_eq_some_iff] at hn
+  obtain ⟨e2, _, rfl⟩ := hn
+  exact constFolded_simplify e2
+
+/-- FULL: `flatten` creates no literal. -/
+theorem flatten_finiteLits (n : Nat) (e e' : Exp (Ext K)) (h : flattenF n e = some e')
+    (he : finiteLits e = true) : finiteLits e' = true := finiteLits_flattenF n e e' h he
 
 /-! ## simplify: what holds in logical positions (truth values) -/
 
